@@ -189,15 +189,15 @@ pub const POS_FEATURES: &[&[u8]] = &[b"\\\"", b"\\\\", b"\\\\\\\"", b"\\\\\\\\",
 pub fn run(ctx: &Ctx) {
     let p = DocParams { ws: 2, max_depth: 5, max_items: 6, ..DocParams::default() };
     let pc = p.clone();
-    ctx.search(&sub("docs"), "generated", ctx.n(40_000, 500_000), 800, &move |src: &mut Src| gens::gen_container_doc(src, &pc));
+    ctx.search(&sub("docs"), "generated", ctx.n(120_000, 1_000_000), 800, &move |src: &mut Src| gens::gen_container_doc(src, &pc));
     let pc = p.clone();
-    ctx.search(&sub("stress"), "skip-stress", ctx.n(60_000, 800_000), 600, &move |src: &mut Src| gen_skip_stress(src, &pc));
+    ctx.search(&sub("stress"), "skip-stress", ctx.n(180_000, 1_600_000), 600, &move |src: &mut Src| gen_skip_stress(src, &pc));
     let pc = DocParams { dup_keys: true, ..p.clone() };
-    ctx.search(&sub("dup-keys"), "dup", ctx.n(20_000, 200_000), 400, &move |src: &mut Src| gens::gen_container_doc(src, &pc));
+    ctx.search(&sub("dup-keys"), "dup", ctx.n(60_000, 480_000), 400, &move |src: &mut Src| gens::gen_container_doc(src, &pc));
 
-    ctx.search(&sub("many-small"), "many-small", ctx.n(1_500, 30_000), 200, &|src: &mut Src| gens::gen_many_small(src));
-    ctx.search(&sub("brackets"), "bracket-stress", ctx.n(30_000, 400_000), 300, &|src: &mut Src| crate::lazyhelp::gen_bracket_stress(src));
-    ctx.search(&sub("confusable-keys"), "confusable", ctx.n(20_000, 300_000), 200, &|src: &mut Src| gen_confusable_keys(src));
+    ctx.search(&sub("many-small"), "many-small", ctx.n(4_500, 60_000), 200, &|src: &mut Src| gens::gen_many_small(src));
+    ctx.search(&sub("brackets"), "bracket-stress", ctx.n(90_000, 800_000), 300, &|src: &mut Src| crate::lazyhelp::gen_bracket_stress(src));
+    ctx.search(&sub("confusable-keys"), "confusable", ctx.n(60_000, 600_000), 200, &|src: &mut Src| gen_confusable_keys(src));
 
     // positional sweep: a feature at every position of a skipped sibling string
     let quick = ctx.quick();
